@@ -32,6 +32,13 @@ let outcome_of_string s =
   else if s.[String.length s - 1] = 's' then OutLen (nat_of_int (int_of_string (String.sub s 0 (String.length s - 1))), true)
   else OutLen (nat_of_int (int_of_string s), false)
 
+let str_verdict = function
+  | VOk -> "ok" | VSeedNotInAttractor s -> "notinattr:" ^ string_of_state s
+  | VDuplicate s -> "dup:" ^ string_of_state s | VMissed a -> "missed:" ^ str_states a
+  | VOutside s -> "outside:" ^ string_of_state s | VSetMismatch s -> "setmismatch:" ^ string_of_state s
+let states_of_string s = List.map state_of_string (split ',' s)
+let sets_of_string s = if s = "-" || s = "" then [] else List.map states_of_string (String.split_on_char '/' s)
+
 let dump (d : sd) =
   let ns = List.map (fun x ->
     Printf.sprintf "%s,%d,%d,%d,%s%s%s" (string_of_space x.n_space) (int_of_nat x.n_depth)
@@ -45,6 +52,8 @@ let () =
   let ic = if Array.length Sys.argv > 1 then open_in Sys.argv.(1) else stdin in
   let net = ref ([] : net) and cfg = ref (nat_of_int 100000) and fuel = ref (nat_of_int 100000) in
   let cur = ref { sd_nodes = []; sd_edges = [] } in
+  let attrs : state list list option ref = ref None in
+  let get_attrs () = match !attrs with Some a -> a | None -> let a = attractors_b !net in attrs := Some a; a in
   let read_bits l = List.init (String.length l) (fun i -> l.[i] = '1') in
   (try
      while true do
@@ -57,7 +66,7 @@ let () =
            | "net" ->
                let n = int_of_string (a 1) in
                let tabs = List.init n (fun _ -> read_bits (String.trim (input_line ic))) in
-               net := net_of_tables (nat_of_int n) tabs; "ok"
+               net := net_of_tables (nat_of_int n) tabs; attrs := None; "ok"
            | "cfg" -> cfg := nat_of_int (int_of_string (a 1)); "ok"
            | "fuel" -> fuel := nat_of_int (int_of_string (a 1)); "ok"
            | "percolate" -> string_of_space (percolate_b !net (space_of_string (a 1)))
@@ -69,10 +78,19 @@ let () =
            | "conston" -> (match const_on_b !net (nat_of_int (int_of_string (a 1))) (space_of_string (a 2)) with
                            | None -> "n" | Some true -> "1" | Some false -> "0")
            | "attractors" ->
-               let l = attractors_b !net in
+               let l = get_attrs () in
                if l = [] then "-" else String.concat " " (List.map str_states l)
+           | "chk" ->
+               let sp = space_of_string (a 2) in
+               let e = node_attractors_of (get_attrs ()) sp (spaces_of_string (a 3)) in
+               str_verdict (match a 1 with
+                 | "cover" -> check_cover sp e (states_of_string (a 4))
+                 | "seeds" -> check_seeds sp e (states_of_string (a 4))
+                 | "sound" -> check_seeds_sound sp e (states_of_string (a 4))
+                 | "sets" -> check_sets e (states_of_string (a 4)) (sets_of_string (a 5))
+                 | x -> failwith ("unknown chk " ^ x))
            | "nodeattr" ->
-               let l = node_attractors_b !net (space_of_string (a 1)) (spaces_of_string (a 2)) in
+               let l = node_attractors_of (get_attrs ()) (space_of_string (a 1)) (spaces_of_string (a 2)) in
                if l = [] then "-" else String.concat " " (List.map str_states l)
            | "redfix" -> str_states (reduced_fixed_b !net (space_of_string (a 1)) (space_of_string (a 2)) (spaces_of_string (a 3)))
            | "reach" -> str_states (reach_list !net (state_of_string (a 1)))
